@@ -332,17 +332,23 @@ func c27parse(b []byte, method string, http10 bool) (m c27msg) {
 	}
 	te := m.get("transfer-encoding")
 	cl := m.get("content-length")
+	// A message is interpreted by the version in its status line: an HTTP/1.0 message is read the
+	// HTTP/1.0 way (Transfer-Encoding is not understood: RFC 7230 2.6 / 3.3.1), whoever asked.
+	clientIs10 := http10
+	if m.proto == "HTTP/1.0" {
+		http10 = true
+	}
 	// rule 1
 	if method == "HEAD" || code/100 == 1 || code == 204 || code == 304 {
 		m.delim, m.complete, m.rest = "nobody", true, b
-		if http10 && len(te) > 0 {
+		if clientIs10 && len(te) > 0 {
 			m.teTo10 = true
 		}
 		return
 	}
 	// rule 3
 	if len(te) > 0 {
-		if http10 {
+		if clientIs10 {
 			m.teTo10 = true
 		}
 		var toks []string
@@ -470,22 +476,71 @@ func c27request(c c27case) string {
 	return s
 }
 
+// c27resetCaches empties bfe's process-wide status line cache so that every execution (single
+// case or history) is judged from the same initial state, whatever ran before in this process.
+func c27resetCaches() {
+	statusMu.Lock()
+	statusLines = make(map[int]string)
+	statusMu.Unlock()
+}
+
+func c27backendAnswer(c c27case) h1answer {
+	wire, _ := c27wire(c)
+	return h1answer{Resp: func(req *bfe_http.Request) *bfe_http.Response {
+		var rd io.Reader = bytes.NewReader(wire)
+		if c.RdChunk > 0 {
+			rd = &c27slowReader{r: rd, n: c.RdChunk}
+		}
+		res, err := bfe_http.ReadResponse(bfe_bufio.NewReader(rd), req)
+		if err != nil {
+			panic("c27: backend wire rejected by ReadResponse: " + err.Error())
+		}
+		return res
+	}}
+}
+
+// c27runHistory sends the requests of a history one after the other on the same server object:
+// on the same connection as long as bfe keeps it open, on a fresh connection (fresh bubble)
+// otherwise. The status line cache is reset only before the first request.
+func c27runHistory(t *testing.T, srv *BfeServer, h []c27case) (obs []c27obs, conns int) {
+	c27resetCaches()
+	c27mod = nil
+	obs = make([]c27obs, len(h))
+	pc := srv.serverStatus.ProxyState.PanicClientConnServe
+	for i := 0; i < len(h); {
+		var answers []h1answer
+		for _, c := range h[i:] {
+			answers = append(answers, c27backendAnswer(c))
+		}
+		conns++
+		first := i
+		h1run(t, srv, answers, func(e *h1env) {
+			seen := 0
+			for i < len(h) {
+				p0 := pc.Get()
+				e.send(c27request(h[i]))
+				all := e.out()
+				obs[i] = c27obs{out1: all[seen:], closed1: e.closed(), panics: pc.Get() - p0}
+				seen = len(all)
+				i++
+				if obs[i-1].closed1 {
+					break
+				}
+			}
+		})
+		if i == first {
+			panic("c27runHistory: no progress")
+		}
+	}
+	return
+}
+
 func c27run(t *testing.T, srv *BfeServer, c c27case) c27obs {
 	var o c27obs
+	c27resetCaches()
 	var answers []h1answer
 	if c.Srv != "M" {
-		wire, _ := c27wire(c)
-		answers = append(answers, h1answer{Resp: func(req *bfe_http.Request) *bfe_http.Response {
-			var rd io.Reader = bytes.NewReader(wire)
-			if c.RdChunk > 0 {
-				rd = &c27slowReader{r: rd, n: c.RdChunk}
-			}
-			res, err := bfe_http.ReadResponse(bfe_bufio.NewReader(rd), req)
-			if err != nil {
-				panic("c27: backend wire rejected by ReadResponse: " + err.Error())
-			}
-			return res
-		}})
+		answers = append(answers, c27backendAnswer(c))
 		c27mod = nil
 	} else {
 		cc := c
@@ -588,6 +643,9 @@ func c27judge(c c27case, exp c27expect, o c27obs) (sig, detail, outcome string) 
 	if m.teTo10 {
 		return "transfer-encoding-to-http10-client:" + cls, "client got " + show(o.out1), "bad"
 	}
+	if !http10 && m.proto != "HTTP/1.1" {
+		return "status-line-version:" + m.proto + "-to-http11-request:" + c27statusClass(c), "client got " + show(o.out1), "bad"
+	}
 	// end-to-end headers
 	if c.Frame == "bare" {
 		// no headers to compare
@@ -666,11 +724,16 @@ func c27judge(c c27case, exp c27expect, o c27obs) (sig, detail, outcome string) 
 	if o.probed {
 		outcome += "+keepalive"
 		p := c27parse(o.out2, "GET", false)
+		if p.err == "" && p.proto != "HTTP/1.1" {
+			return "status-line-version:" + p.proto + "-to-http11-request:probe-after-" + c27clientClass(c), fmt.Sprintf("first response %s; probe response %s", show(o.out1), show(o.out2)), "bad"
+		}
 		if len(o.out2) == 0 || p.err != "" || p.code != 200 || !p.complete || p.delim == "close" || string(p.body) != c27probeBody || len(p.rest) > 0 {
 			return "desync-on-next-request:" + cls, fmt.Sprintf("first response %s; after the probe request the client received %s (err=%q)", show(o.out1), show(o.out2), p.err), "bad"
 		}
-	} else {
+	} else if o.closed1 {
 		outcome += "+closed"
+	} else {
+		outcome += "+open"
 	}
 	return "", "", outcome
 }
@@ -852,6 +915,85 @@ func TestVerifC27(t *testing.T) {
 					}
 					c := c27case{Srv: "M", Method: method, Ver: ver, Status: status, Frame: "redirect", Delivery: v.dl}
 					exec(c, c27expect{status: status, complete: true, declCL: -1})
+				}
+			}
+		}
+	}
+
+	// ---- histories: 2-3 requests on one server object (same connection while bfe keeps it open,
+	// otherwise a new connection); bfe's process-wide state (status line cache) carries over.
+	type helem struct {
+		ver    string
+		kind   string // chunked | cl | head
+		status int
+	}
+	hvers := []string{"1.1", "1.0", "1.0k"}
+	hsrvs := []string{"A"}
+	if th {
+		hvers = append(hvers, "1.1c")
+		hsrvs = append(hsrvs, "B")
+	}
+	var helems []helem
+	for _, v := range hvers {
+		for _, k := range []string{"chunked", "cl", "head"} {
+			for _, st := range []int{200, 404} {
+				helems = append(helems, helem{v, k, st})
+			}
+		}
+	}
+	r.Set("history-bounds", fmt.Sprintf("all sequences of 2 and 3 requests over versions=%v x kind=[chunked cl head] x status=[200 404] (%d symbols), servers=%v, body 5 octets; status line cache reset before every execution", hvers, len(helems), hsrvs))
+	mk := func(srv string, e helem) c27case {
+		c := c27case{Srv: srv, Method: "GET", Ver: e.ver, Status: e.status, Frame: e.kind, Size: 5, CT: true, Delivery: "whole"}
+		if e.kind == "head" {
+			c.Method, c.Frame = "HEAD", "cl"
+		}
+		return c
+	}
+	runHist := func(srv string, es []helem) {
+		var h []c27case
+		var exps []c27expect
+		parts := []interface{}{"c27h", srv}
+		for _, e := range es {
+			c := mk(srv, e)
+			_, exp := c27wire(c)
+			h, exps = append(h, c), append(exps, exp)
+			parts = append(parts, e.ver+"/"+e.kind+"/"+strconv.Itoa(e.status))
+		}
+		id := vk.Key(parts...)
+		if !r.Case(id) {
+			return
+		}
+		var obs []c27obs
+		conns := 0
+		if panicked, val := vk.Guard(func() { obs, conns = c27runHistory(t, srvs[srv], h) }); panicked {
+			r.Violation("harness-panic:"+vk.PanicSite(val), id, val)
+			return
+		}
+		r.Nontrivial(id)
+		r.Outcome(fmt.Sprintf("history-len%d-conns%d", len(h), conns))
+		for i := range h {
+			sig, detail, _ := c27judge(h[i], exps[i], obs[i])
+			if sig != "" {
+				r.Violation(sig, id, fmt.Sprintf("history %s, request #%d %+v: %s", id, i+1, h[i], detail))
+				r.Outcome("history-bad")
+				break
+			}
+		}
+	}
+	for _, srv := range hsrvs {
+		for _, e1 := range helems {
+			for _, e2 := range helems {
+				idx++
+				if !r.Mine(idx) {
+					continue
+				}
+				if stop || r.Expired("histories") {
+					stop = true
+					continue
+				}
+				runHist(srv, []helem{e1, e2})
+				for _, e3 := range helems {
+					runHist(srv, []helem{e1, e2, e3})
 				}
 			}
 		}
